@@ -75,11 +75,19 @@ Proof. exact unrepaired_parametric_partial. Qed.
 Theorem C12_sphere_fixed_steps : forall (St : Type) (opt : St -> St) n s, snd (run_steps St opt n s) = n.
 Proof. exact sphere_fixed_steps. Qed.
 Theorem C12_sphere_flag_sound : forall (St : Type) (opt : St -> St) (dist : St -> R) f thr k s0,
-  sphere_check St opt dist f thr (S k) s0 = true -> Rabs (f (dist (fst (run_steps St opt k s0)))) < thr.
+  sphere_check St opt dist f thr (S k) s0 = true ->
+  Rabs (f (dist (fst (run_steps St opt k s0)))) < thr /\ 0 <= sphere_distance St opt dist (S k) s0.
 Proof. exact sphere_flag_sound. Qed.
 Theorem C12_sphere_miss_flagged : forall (St : Type) (opt : St -> St) (dist : St -> R) f thr n s0,
   (forall x, thr <= Rabs (f x)) -> sphere_check St opt dist f thr n s0 = false.
 Proof. exact sphere_miss_flagged. Qed.
+Theorem C12_sphere_behind_flagged : forall (St : Type) (opt : St -> St) (dist : St -> R) f thr n s0,
+  sphere_distance St opt dist n s0 < 0 -> sphere_check St opt dist f thr n s0 = false.
+Proof. exact sphere_behind_flagged. Qed.
+(* the unrepaired flag (residual only) reported a hit at a negative distance *)
+Theorem C12_sphere_behind_unrepaired_refuted : exists (f : R -> R) thr (opt : R -> R) s0,
+  sphere_distance R opt (fun s => s) 2 s0 < 0 /\ sphere_check_unrepaired R opt (fun s => s) f thr 2 s0 = true.
+Proof. exact sphere_behind_unrepaired_refuted. Qed.
 
 (* non-vacuity: glass -> air at 3-4-5 incidence is total internal reflection (C12_tir_flagged applies), and a
    ray that misses a sphere meets the hypothesis of C12_secant_miss_flagged *)
